@@ -295,6 +295,18 @@ def find_counterexample(prop, unit, fn, obligation, tier):
                 return {'found_by': 'native heap audit of the real memory code', 'backend': backend, 'input': v.get('input'),
                         'what': v.get('what'), 'instructions': v.get('instructions'), 'replay_cmd': cmd}
         return None
+    if backend and unit.endswith('_routine'):
+        try:
+            sums, cmd = native_run(['prints', '--tier', 'quick'], timeout=900)
+        except Exception:
+            return None
+        for s in sums:
+            if not s['check'].endswith('/' + backend):
+                continue
+            for v in s['violations']:
+                return {'found_by': 'native execution of the real routine skeleton / print sequence', 'backend': backend, 'input': v.get('input'),
+                        'what': v.get('what'), 'instructions': v.get('instructions'), 'replay_cmd': cmd}
+        return None
     em = emitter_of(fn)
     if not backend or not em:
         return None
